@@ -560,9 +560,12 @@ func toInt64(val interface{}) (n int64, err error) {
 	case string:
 		return strconv.ParseInt(x, 10, 64)
 	case float64:
-		return int64(x), nil
+		// integral and inside [-2^63, 2^63); NaN fails the first test
+		if x == math.Trunc(x) && x >= -9223372036854775808.0 && x < 9223372036854775808.0 {
+			return int64(x), nil
+		}
 	case float32:
-		return int64(x), nil
+		return toInt64(float64(x))
 	case time.Time:
 		return x.Unix(), nil
 	default:
@@ -663,9 +666,12 @@ func toUInt64(val interface{}) (uint64, error) {
 		i, err := strconv.ParseUint(x, 10, 64)
 		return uint64(i), err
 	case float64:
-		return uint64(x), nil
+		// integral and inside [0, 2^64); NaN fails the first test
+		if x == math.Trunc(x) && x >= 0 && x < 18446744073709551616.0 {
+			return uint64(x), nil
+		}
 	case float32:
-		return uint64(x), nil
+		return toUInt64(float64(x))
 	case time.Time:
 		if u := x.Unix(); u >= 0 {
 			return uint64(u), nil
